@@ -364,6 +364,12 @@ class SimBridge:
 
 # ----------------------------------------------------------------------------- abstraction of the real State
 
+def unfetched(v):
+    """the controller's marker for a requested output whose value has not arrived (None on the pinned tree, a placeholder
+    object of the scheduler afterwards); a delivered VALUE None is told apart by the caller (it knows which output is None-valued)"""
+    return v is None or type(v).__module__.startswith("cascade.")
+
+
 def digest_state(state, spec):
     from cascade.scheduler.core import DatasetStatus
     sname = {DatasetStatus.preparing: "preparing", DatasetStatus.available: "available"}
@@ -383,7 +389,7 @@ def digest_state(state, spec):
         "purgeQ": sorted(un_ds(ds) for ds in state.purging_queue),
         "fetchQ": [un_ds(ds) + [un_h(h)] for ds, h in state.fetching_queue.items()],
         "fetchIssued": sorted(un_ds(ds) for ds in getattr(state, "fetching_issued", set())),
-        "outputs": sorted(un_ds(ds) + [v if (v is None or isinstance(v, str)) else repr(v)] for ds, v in state.outputs.items()),
+        "outputs": sorted(un_ds(ds) + [None if unfetched(v) else v if isinstance(v, str) else repr(v)] for ds, v in state.outputs.items()),
         "hostDs": sorted([un_h(h)] + un_ds(ds) + [sname.get(s, str(s))] for h, m in state.host2ds.items() for ds, s in m.items()),
         "dsHost": sorted([un_h(h)] + un_ds(ds) + [sname.get(s, str(s))] for ds, m in state.ds2host.items() for h, s in m.items()),
         "workerDs": sorted(un_w(w) + un_ds(ds) + [sname.get(s, str(s))] for w, m in state.worker2ds.items() for ds, s in m.items()),
@@ -443,7 +449,7 @@ def run_case(spec, ws, seed, fifo, none_output=None, max_rounds=None, alarm_s=60
     trace = [{"op": "init", "tasks": [{"nOut": t["nOut"], "gpu": t["gpu"], "inputs": inputs_of(t)} for t in spec["tasks"]],
               "ext": spec["ext"], "workers": ws}]
     br = SimBridge(spec, ws, rng, fifo, trace, none_output)
-    res = {"trace": trace, "spec": spec, "workers": ws, "seed": seed, "fifo": fifo}
+    res = {"trace": trace, "spec": spec, "workers": ws, "seed": seed, "fifo": fifo, "none_output": none_output}
     cur = {"asg": [], "state": None, "rounds": 0, "events": [], "heur": 0}
     import cascade.scheduler.assign as sassign
     bound = max_rounds or (40 * (len(spec["tasks"]) + sum(t["nOut"] for t in spec["tasks"])) + 60)
@@ -591,11 +597,14 @@ def oracle(res, fifo):
         ref = seq_eval(spec)
         for d in map(tuple, spec["ext"]):
             got = res["outputs"].get(d)
-            if got is None:
+            none_valued = res.get("none_output") is not None and tuple(res["none_output"]) == d
+            if none_valued and d in res["outputs"] and got is None and d in set(map(tuple, res["delivered"])):
+                continue        # the value of this output IS None and it has been handed to the controller
+            if unfetched(got):
                 out.append(("C01", "requested-output-not-delivered", list(d)))
                 out.append(("C03", "requested-output-not-fetched", list(d)))
-            elif got != ref[d]:
-                out.append(("C01", "wrong-value", [list(d), got, ref[d]]))
+            elif none_valued or got != ref[d]:
+                out.append(("C01", "wrong-value", [list(d), repr(got), None if none_valued else ref[d]]))
     if oc != "finished" and spec["ext"]:
         # C01: every dataset the caller asked for is delivered -- a run that never returns delivers nothing
         out.append(("C01", "run-did-not-return-requested-outputs", oc))
